@@ -5,7 +5,7 @@
        every schedule.   (c) Model/ObjPool.v: the object pool. *)
 From Coq Require Import List NArith Arith Permutation Bool String.
 From RareV Require Import Base.Hex Model.Batch Model.Pipeline Model.AggLoop Model.Sync Model.ObjPool
-  Proofs.PipelineProof Proofs.AggLoopProof Proofs.SyncProof Proofs.ObjPoolProof Gen.GenSync Gen.GenOrder.
+  Proofs.PipelineProof Proofs.AggLoopProof Proofs.SyncProof Proofs.ObjPoolProof Gen.GenSync Gen.GenOrder Model.Skel Gen.GenSkel.
 Import ListNotations.
 
 (* (a) a well-formed trace (mutual exclusion as the runtime provides it) in which every location
@@ -36,6 +36,14 @@ Print Assumptions C05_race_free.
 Theorem C05_counters_before_send :
   counter_update_functions = ["processLineSync"%string] /\ worker_processes_before_send = true.
 Proof. vm_compute. split; reflexivity. Qed.
+
+(* translator obligation for (b): the structure Model/AggLoop.v assumes is the structure of
+   RunAggregationLoop as regenerated into Gen/GenSkel.v — the ticker goroutine renders between
+   Lock and Unlock and returns when it receives on outputDone, which is UNBUFFERED; the main loop
+   samples a batch between Lock and Unlock; after the loop it sends on outputDone and only then
+   renders, once, outside any goroutine *)
+Theorem C05_loop_skeleton : agg_loop_ok skel_agg_loop = true.
+Proof. vm_compute. reflexivity. Qed.
 
 (* (b) every reachable state of pipeline + aggregation loop + ticker, every schedule *)
 Definition reachable K classify c srcs nw x := creach K classify c (init K srcs nw, loop0 K) x.
